@@ -100,8 +100,8 @@ CollectOptions(s, t0, t1) ==               \* [reset, lo, hi]: what current_usag
            THEN {IF AsImplemented_WindowRollReportsZero THEN [reset |-> TRUE, lo |-> 0, hi |-> 0]
                  ELSE [reset |-> TRUE, lo |-> Rate(s.bytes, eHi), hi |-> Rate(s.bytes, Hi(eLo, Window))]}
            ELSE {})
-ApplyCollect(s, opt, bw, t0, t1) ==        \* collect_metrics: the snapshot get_metrics() hands out
-  [s EXCEPT !.mConn = s.cfg.max - s.avail, !.mBw = bw,
+ApplyCollect(s, opt, bw, t0, t1, avail) == \* collect_metrics: the snapshot get_metrics() hands out
+  [s EXCEPT !.mConn = s.cfg.max - avail, !.mBw = bw,
             !.bytes = IF opt.reset THEN 0 ELSE @, !.rLo = IF opt.reset THEN t0 ELSE @, !.rHi = IF opt.reset THEN t1 ELSE @]
 
 (* ---- health_check: only the memory limit makes it fail; nothing ever writes memory_used ---- *)
@@ -145,12 +145,15 @@ Effect(s, e) ==
 (* the operation, then - if the driver yields (settle) or tokio time passes inside - the tasks run before and after the
    passage of time; `coll`: a metrics collector ticked, the caller applies one of CollectOptions *)
 After(s, e) ==
-  LET r == Effect(s, e)
+  LET f0 == IF e.op = "acquirebg" THEN SettleTasks(s) ELSE [s |-> s, coll |-> FALSE, clean |-> FALSE]
+      r == Effect(f0.s, e)     \* an acquire in a task of its own runs after the tasks spawned before it
       f1 == SettleTasks(r.s)
       f2 == SettleTasks([f1.s EXCEPT !.now = @ + r.dt])
-      s3 == IF f1.clean \/ f2.clean THEN CleanupBuckets(f2.s, e.t0, e.t1) ELSE f2.s
-  IN IF e.settle \/ r.dt > 0 THEN [s |-> s3, ok |-> r.ok, coll |-> f1.coll \/ f2.coll]
-     ELSE [s |-> r.s, ok |-> r.ok, coll |-> FALSE]
+      s3 == IF f0.clean \/ f1.clean \/ f2.clean THEN CleanupBuckets(f2.s, e.t0, e.t1) ELSE f2.s
+  IN IF e.settle \/ r.dt > 0
+     THEN [s |-> s3, ok |-> r.ok, coll |-> f0.coll \/ f1.coll \/ f2.coll,
+           cavail |-> IF f1.coll \/ f2.coll THEN s3.avail ELSE s.avail]     \* the permits available when the collector looked
+     ELSE [s |-> r.s, ok |-> r.ok, coll |-> FALSE, cavail |-> r.s.avail]
 
 Obs(s) == [guards |-> s.guards, waiters |-> s.waiters, mconn |-> s.mConn, mbw |-> s.mBw, mem |-> s.mem,
            alive |-> Len(s.tasks), now |-> s.now]
